@@ -1,5 +1,5 @@
 import GohtVerif.Model.Lexer
-/-! Calibration: the token-queue bound for the prototype lexer model. -/
+/-! How many tokens the lexer primitives add to the queue of the current state invocation. -/
 namespace GL
 
 @[simp] theorem next_out (l : L) : (l.next).1.out = l.out := by
@@ -8,12 +8,15 @@ namespace GL
 @[simp] theorem dropS_out (l : L) (n : Nat) : (l.dropS n).out = l.out := by
   unfold L.dropS; split <;> rfl
 
+@[simp] theorem unbumpPos_out (l : L) : (unbumpPos l).out = l.out := by
+  unfold unbumpPos; split <;> rfl
+
 @[simp] theorem backup_out (l : L) : l.backup.out = l.out := by
   unfold L.backup
   split
   · rfl
   · simp only [dropS_out]
-    split <;> split <;> rfl
+    split <;> simp
 
 @[simp] theorem peek_out (l : L) : (l.peek).1.out = l.out := by
   simp [L.peek]
@@ -56,7 +59,12 @@ theorem nextN_out (n : Nat) (l : L) : (nextN n l).out = l.out := by
 theorem emit_out_le (l : L) (t : TT) : (l.emit t).out.length ≤ l.out.length + 1 := by
   unfold L.emit; split <;> simp
 
-theorem errorf_out_le (l : L) (m : String) : (l.errorf m).1.out.length ≤ l.out.length + 1 := by
+theorem emitIfPending_out_le (l : L) (t : TT) : (emitIfPending l t).out.length ≤ l.out.length + 1 := by
+  unfold emitIfPending; split
+  · exact emit_out_le l t
+  · omega
+
+theorem errorf_out_le (l : L) (m : EMsg) : (l.errorf m).1.out.length ≤ l.out.length + 1 := by
   unfold L.errorf; split <;> simp
 
 theorem braceAux_out (e : Nat) (n : Nat) (l : L) (a b : Bool) (q : Nat) :
@@ -69,60 +77,55 @@ theorem braceAux_out (e : Nat) (n : Nat) (l : L) (a b : Bool) (q : Nat) :
     all_goals simp [ih]
 @[simp] theorem brace_out (l : L) (e : Nat) : (l.continueToMatchingBrace e).1.out = l.out := braceAux_out ..
 
-#print axioms brace_out
-end GL
+theorem quoteLoop_out (q : Nat) (n : Nat) (l : L) (e : Bool) : (quoteLoop q n l e).1.out = l.out := by
+  induction n generalizing l e with
+  | zero => simp [quoteLoop]
+  | succ n ih =>
+    simp only [quoteLoop]
+    repeat' split
+    all_goals simp [ih]
 
-namespace GL
+theorem quote_out_le (l : L) (t : TT) (c : Bool) : (l.continueToMatchingQuote t c).1.out.length ≤ l.out.length + 1 := by
+  unfold L.continueToMatchingQuote
+  generalize hp : l.peek = pk
+  obtain ⟨l1, quote⟩ := pk
+  have h1 : l1.out = l.out := by have := peek_out l; rw [hp] at this; exact this
+  simp only []
+  split
+  · simp [h1]
+  · generalize hq : quoteLoop quote ((if c = true then l1.next.fst else l1.skip.fst).cur.rest.length + 1)
+        (if c = true then l1.next.fst else l1.skip.fst) false = ql
+    obtain ⟨l2, atEof⟩ := ql
+    have h2 : l2.out = l.out := by
+      have := quoteLoop_out quote ((if c = true then l1.next.fst else l1.skip.fst).cur.rest.length + 1)
+        (if c = true then l1.next.fst else l1.skip.fst) false
+      rw [hq] at this
+      simp only [] at this
+      rw [this]
+      split <;> simp [h1]
+    simp only []
+    split
+    · simp [h2]
+    · split
+      · refine Nat.le_trans (emit_out_le _ _) ?_
+        simp [h2]
+      · simp only [skip_out]
+        refine Nat.le_trans (emit_out_le _ _) ?_
+        simp [h2]
 
-/-! per-state definitions (what the production model will use: `step` only dispatches) -/
-def stGoLineStart (l : L) : L × St :=
-  let (l, c) := l.peek
-  if c == ch 'p' then ((if !l.s.isEmpty then l.emit .goCode else l), .package)
-  else if c == ch 'i' then ((if !l.s.isEmpty then l.emit .goCode else l), .importStart)
-  else if c == ch '@' then (l, .template)
-  else if c == 10 || c == 13 || c == eof then (l, .goLineEnd)
-  else (l, .goCode)
+def sumL : Sum L L → L
+  | .inl l => l
+  | .inr l => l
 
-def stGoLineEnd (l : L) : L × St :=
-  let (l, c) := l.peek
-  if c == 10 || c == 13 then
-    let l := (l.next).1
-    let (l, c2) := l.peek
-    let l := if c2 == 13 then (l.next).1 else l
-    (l.emit .newLine, .goLineStart)
-  else if c == eof then (l.emit .eof, .halt)
-  else l.errorf "unexpected character"
-
-def setPkgStop : List Nat := [32, 40, 10]
-def kwPackage : GoStr := [112, 97, 99, 107, 97, 103, 101]
-def stPackage (l : L) : L × St :=
-  let l := l.acceptUntil setPkgStop
-  if l.s != kwPackage then (l, .goCode) else
-  let l := l.ignore
-  let l := l.skipRun [32]
-  let l := l.acceptUntil [10]
-  if l.s.isEmpty then l.errorf "package name expected"
-  else (l.emit .package, .goLineEnd)
-
-def stObjRef (l : L) : L × St :=
-  let l := (l.skip).1
-  let (l, r) := l.continueToMatchingBrace 93
-  if r == eof then l.errorf "object reference not closed: eof" else
-  let l := l.backup
-  let l := l.emit .objectRef
-  ((l.skip).1, .content)
-
-macro "out_bound" : tactic => `(tactic| (
-  repeat' split
-  all_goals first
-    | (simp; done)
-    | (refine Nat.le_trans (emit_out_le _ _) ?_; simp; done)
-    | (refine Nat.le_trans (errorf_out_le _ _) ?_; simp; done)))
-
-theorem stGoLineStart_out (l : L) : (stGoLineStart l).1.out.length ≤ l.out.length + 1 := by
-  unfold stGoLineStart; simp only []; out_bound
-
-theorem stGoLineEnd_out (l : L) : (stGoLineEnd l).1.out.length ≤ l.out.length + 1 := by
-  unfold stGoLineEnd; simp only []; out_bound
+theorem gohtStartLoop_out (n : Nat) (l : L) : (sumL (gohtStartLoop n l)).out = l.out := by
+  induction n generalizing l with
+  | zero => simp [gohtStartLoop, sumL]
+  | succ n ih =>
+    simp only [gohtStartLoop]
+    split
+    · simp [sumL]
+    · split
+      · simp [sumL]
+      · rw [ih]; simp
 
 end GL
